@@ -215,11 +215,11 @@ theorem rf_stepRun (cfg : Cfg) (s : St) {t : Tid} (ht : t ≠ .R) : RFrame s (st
     · exact (h.on_emit _).on_finish t
     · exact h.on_finish t
     · split
-      · exact ((h.same rfl rfl : RFrame s { s0 with vres := none, rcvBusy := false, gone := _ }).on_emit _).on_finish t
-      · exact ((h.same rfl rfl : RFrame s { s0 with vres := none, rcvBusy := false, gone := _ }).on_emit _).on_finish t
+      · exact ((h.same rfl rfl : RFrame s { s0 with vres := none, rcvBusy := false, queue := _ }).on_emit _).on_finish t
+      · exact ((h.same rfl rfl : RFrame s { s0 with vres := none, rcvBusy := false, queue := _ }).on_emit _).on_finish t
     · split
-      · exact ((h.same rfl rfl : RFrame s { s0 with vres := none, rcvBusy := false, gone := _ }).on_emit _).on_finish t
-      · exact ((h.same rfl rfl : RFrame s { s0 with vres := none, rcvBusy := false, gone := _ }).on_setStatus t .ready).on_enterClose cfg _ ht
+      · exact ((h.same rfl rfl : RFrame s { s0 with vres := none, rcvBusy := false, queue := _ }).on_emit _).on_finish t
+      · exact ((h.same rfl rfl : RFrame s { s0 with vres := none, rcvBusy := false, queue := _ }).on_setStatus t .ready).on_enterClose cfg _ ht
     · exact h.on_stepInClose cfg _ ht
     · exact h.on_finish t
   · split
